@@ -312,16 +312,41 @@ pub struct Prov {
     /// decoration choices
     pub deco: Vec<u8>,
     pub epochs: Vec<Ep>,
+    /// hypothetical later rows (only after the full table): semesters after 2017-01-01, each adding one second
+    #[serde(default)]
+    pub extra: Vec<u16>,
+    /// CR LF line terminators
+    #[serde(default)]
+    pub crlf: bool,
+}
+
+/// the file's table: the first k rows of the IERS table, then the hypothetical later rows
+fn file_table(c: &Prov) -> Vec<(i64, i64)> {
+    let mut t: Vec<(i64, i64)> = leap_table().into_iter().take(c.k).collect();
+    if c.k == 28 {
+        let mut sem = 0i64; // semesters after 2017-01-01
+        let mut dat = 37;
+        for gap in &c.extra {
+            sem += 1 + *gap as i64;
+            let (y, m) = (2017 + sem / 2, if sem % 2 == 0 { 1 } else { 7 });
+            dat += 1;
+            t.push((days_1900(y, m, 1) * 86_400, dat));
+        }
+    }
+    t
 }
 
 fn prov_strategy() -> BS<Prov> {
-    (prop_oneof![3 => Just(28usize), 2 => 1usize..=28], prop::collection::vec(any::<u8>(), 0..80), prop::collection::vec(epoch_any(&ALL_SCALES), 1..40))
-        .prop_map(|(k, deco, epochs)| Prov { k, deco, epochs })
+    // later rows up to year ~2400: timestamps beyond 2^32 s (7 February 2036) included
+    let extra = prop_oneof![3 => Just(vec![]), 2 => prop::collection::vec(prop_oneof![4 => 0u16..6, 1 => 0u16..200], 1..8)];
+    (prop_oneof![3 => Just(28usize), 2 => 1usize..=28], prop::collection::vec(any::<u8>(), 0..80), prop::collection::vec(epoch_any(&ALL_SCALES), 1..40), extra, prop::bool::weighted(0.2))
+        .prop_map(|(k, deco, epochs, extra, crlf)| Prov { k, deco, epochs, extra, crlf })
         .boxed()
 }
 
 fn render_file(c: &Prov) -> String {
-    let table = leap_table();
+    let table = file_table(c);
+    let nrows = table.len();
     let mut out = String::new();
     let mut di = 0usize;
     let mut next = |n: u8| -> u8 {
@@ -334,7 +359,7 @@ fn render_file(c: &Prov) -> String {
         out.push_str(comments[next(comments.len() as u8) as usize]);
         out.push('\n');
     }
-    for (i, (ts, dat)) in table.iter().take(c.k).enumerate() {
+    for (i, (ts, dat)) in table.iter().take(nrows).enumerate() {
         let _ = i;
         match next(6) {
             0 => out.push('\n'),
@@ -354,6 +379,9 @@ fn render_file(c: &Prov) -> String {
     }
     if next(2) == 0 {
         out.pop(); // no trailing newline
+    }
+    if c.crlf {
+        out = out.replace('\n', "\r\n");
     }
     out
 }
@@ -379,9 +407,9 @@ fn prov_oracle(c: &Prov) -> Verdict {
         Ok(Err(e)) => return Verdict::Fail(format!("from_path rejected a well-formed IERS file: {e:?}\n{text}")),
         Err(m) => return Verdict::Fail(m),
     };
-    let table: Vec<(i64, i64)> = leap_table().into_iter().take(c.k).collect();
+    let table: Vec<(i64, i64)> = file_table(c);
     let rows: Vec<_> = lib!(p.clone().collect::<Vec<_>>());
-    ensure!(rows.len() == c.k, "provider has {} rows, file has {}\n{}", rows.len(), c.k, text);
+    ensure!(rows.len() == table.len(), "provider has {} rows, file has {}\n{}", rows.len(), table.len(), text);
     for (i, r) in rows.iter().enumerate() {
         ensure!(r.timestamp_tai_s == table[i].0 as f64 && r.delta_at == table[i].1 as f64 && r.announced_by_iers, "row {} = {:?}, want {:?}", i, r, table[i]);
         ensure!(lib!(p[i]) == *r, "Index[{}] differs from iteration", i);
@@ -393,7 +421,8 @@ fn prov_oracle(c: &Prov) -> Verdict {
         let got = lib!(e.leap_seconds_with(true, p.clone()));
         let got_f = lib!(e.leap_seconds_with(false, p.clone()));
         ensure!(got == got_f, "file provider: iers_only flag changes the answer ({:?} vs {:?})", got, got_f);
-        if c.k == 28 {
+        let before_extra = table.len() <= 28 || to_tai(ep.s, ep.c) < (table[28].0 as i128 - 100) * NS_S;
+        if c.k == 28 && before_extra {
             let builtin = lib!(e.leap_seconds(true));
             ensure!(got == builtin, "provider loaded from an identical table answers {:?}, built-in table {:?} for {} {}", got, builtin, SCALE_NAMES[ep.s], ep.c);
         }
@@ -402,10 +431,10 @@ fn prov_oracle(c: &Prov) -> Verdict {
         let far = table.iter().all(|(ts, dat)| [0i64, *dat, dat - 1].iter().all(|o| (tai - (*ts + *o) as i128 * NS_S).abs() > 41 * NS_S));
         if far {
             let want = table.iter().rev().find(|(ts, _)| tai >= *ts as i128 * NS_S).map(|(_, d)| *d as f64);
-            ensure!(got == want, "provider with {} rows answers {:?}, want {:?} at TAI {}", c.k, got, want, tai);
+            ensure!(got == want, "provider with {} rows answers {:?}, want {:?} at TAI {}", table.len(), got, want, tai);
         }
     }
-    Verdict::Pass(if c.k == 28 { "full-table-file" } else { "prefix-file" }, true)
+    Verdict::Pass(if !c.extra.is_empty() && c.k == 28 { "file-with-later-rows" } else if c.crlf { "crlf-file" } else if c.k == 28 { "full-table-file" } else { "prefix-file" }, true)
 }
 
 pub fn subs() -> Vec<Box<dyn DynSub>> {
@@ -414,7 +443,7 @@ pub fn subs() -> Vec<Box<dyn DynSub>> {
         sub(Sub { name: "c06.grid", source: Source::Enum(grid_enum, |_| true), oracle: inst_oracle, known: no_known, hang_is_violation: false }),
         sub(Sub { name: "c06.instants", source: Source::Gen(inst_strategy, 3_000_000, 20_000_000), oracle: inst_oracle, known: no_known, hang_is_violation: false }),
         sub(Sub { name: "c06.accessors", source: Source::Gen(acc_strategy, 1_000_000, 5_000_000), oracle: acc_oracle, known: no_known, hang_is_violation: false }),
-        sub(Sub { name: "c06.providers", source: Source::Gen(prov_strategy, 8_000, 64_000), oracle: prov_oracle, known: no_known, hang_is_violation: false }),
+        sub(Sub { name: "c06.providers", source: Source::Gen(prov_strategy, 16_000, 128_000), oracle: prov_oracle, known: no_known, hang_is_violation: false }),
         crate::props::fuzzsub::fc06(),
     ]
 }
